@@ -14,10 +14,14 @@ pub enum Status { Ok, Fail, Unspec }
 
 #[derive(Clone, Debug, PartialEq, Eq, Hash)]
 pub enum Alloc {
+    /// a compound-array allocation begins here (its elements' allocations follow) / ends here: the
+    /// outer array itself may be allocated at either point (U8)
+    CompoundBegin(usize),
+    CompoundEnd,
     /// array with n cells
     Array(usize),
-    /// object: field name lengths (declaration order), method name lengths (declaration order)
-    Object(Vec<usize>, Vec<usize>),
+    /// object: parent kind, field names (declaration order), method names (declaration order)
+    Object(&'static str, Vec<String>, Vec<String>),
 }
 
 #[derive(Clone, Debug)]
@@ -194,8 +198,11 @@ impl<'a> Interp<'a> {
         if self.heap.len() >= self.fuel.cells { return unspec("U9 heap") }
         self.allocs.push(match &o {
             Obj::Array(c) => Alloc::Array(c.len()),
-            Obj::Object { fields, methods, .. } =>
-                Alloc::Object(fields.iter().map(|f| f.0.len()).collect(), methods.iter().map(|m| m.name.len()).collect()),
+            Obj::Object { parent, fields, methods } => {
+                let pk = match parent { V::Null => "null", V::Int(_) => "int", V::Bool(_) => "bool",
+                    V::Ref(i) => match &self.heap[*i] { Obj::Array(_) => "array", Obj::Object { .. } => "object" } };
+                Alloc::Object(pk, fields.iter().map(|f| f.0.to_string()).collect(), methods.iter().map(|m| m.name.to_string()).collect())
+            }
         });
         self.effects += 1;
         self.heap.push(o);
@@ -351,7 +358,9 @@ impl<'a> Interp<'a> {
                 if !size_ok { return fail("bad array size") }
                 let len = if let V::Int(i) = nv { i as usize } else { 0 };
                 if len > self.fuel.array { return unspec("U9 big array") }
+                self.allocs.push(Alloc::CompoundBegin(len));
                 let r = self.alloc(Obj::Array(vec![V::Null; len]))?;
+                self.allocs.pop(); // the outer array is represented by the Begin/End pair
                 let ri = if let V::Ref(i) = r { i } else { unreachable!() };
                 let mut st = vec![];
                 direct_lets(init, &self.pos, &mut st);
@@ -363,6 +372,7 @@ impl<'a> Interp<'a> {
                     if let Obj::Array(cells) = &mut self.heap[ri] { cells[i] = v }
                     self.effects += 1;
                 }
+                self.allocs.push(Alloc::CompoundEnd);
                 Ok(r)
             }
             Idx(a, i) => {
@@ -645,6 +655,22 @@ fn array_builtin(cells: &mut Vec<V>, name: &str, args: &[V]) -> R<V> {
         }
         _ => fail("no such method on array"),
     }
+}
+
+/// the two admissible linearisations of an allocation trace (outer array of a compound
+/// `array(n, e)` before or after its elements)
+pub fn linearise(allocs: &[Alloc], outer_first: bool) -> Vec<Alloc> {
+    let mut out = vec![];
+    let mut stack: Vec<usize> = vec![];
+    for a in allocs {
+        match a {
+            Alloc::CompoundBegin(n) => { if outer_first { out.push(Alloc::Array(*n)) } stack.push(*n) }
+            Alloc::CompoundEnd => { let n = stack.pop().unwrap_or(0); if !outer_first { out.push(Alloc::Array(n)) } }
+            other => out.push(other.clone()),
+        }
+    }
+    // a failing program may leave groups open: their outer arrays exist in the outer-first order only
+    out
 }
 
 pub fn run(stmts: &[E]) -> RefResult { run_with(stmts, Fuel::default(), &[]) }
